@@ -1,0 +1,18 @@
+//go:build verif
+
+// Contracts for contract-based verification (/verif). Comment-only: with or without the
+// build tag "verif" this file adds nothing to the compiled package.
+
+package middleware
+
+//@ event InvalidRequestID = call rendering.RenderInvalidRequestID
+//@ event ForwardToHandler = call net/http.(Handler).ServeHTTP
+//@ event CurrentID = ret interop.(Server).GetCurrentInvokeID
+//@ event AgentId403 = call rendering.RenderForbiddenWithTypeMsg
+
+// C02/C12: the request id is checked against the invocation in flight before the handler runs.
+//@ func AwsRequestIDValidator$1
+//@   ensures [reject-empty] urlParam(r, "awsrequestid") == "" ==> delta(InvalidRequestID) == 1 && delta(ForwardToHandler) == 0
+//@   ensures [reject-not-current] delta(CurrentID) >= 1 && urlParam(r, "awsrequestid") != firstret(CurrentID) ==> delta(ForwardToHandler) == 0 && delta(InvalidRequestID) == 1
+//@   ensures [compares-with-current] urlParam(r, "awsrequestid") != "" ==> delta(CurrentID) >= 1
+//@   ensures [otherwise-forwards] urlParam(r, "awsrequestid") != "" && urlParam(r, "awsrequestid") == firstret(CurrentID) ==> delta(ForwardToHandler) >= 1
